@@ -73,3 +73,12 @@ CHECKS['C12'] = dict(
     note='Not decided: which texts the generated parser rejects, hence the exact error count. The ANTLR runtime is trusted to notify the '
          'registered listener and to honour BailErrorStrategy.',
 )
+
+CHECKS['C02'] = dict(
+    category='other',
+    technique='csv dialect check at every reader call; all-paths-raise rule on the surplus-cell guards; per-path occurrence counting of add_node / continuation pushes (helpers summarised); guard truth table of the *v join; origin (provenance) check of every add_node argument',
+    text='Decides the propagation mechanism of the importer for every layout: literal tab-separated cells, surplus cells always raise, exactly one '
+         'node per cell on every path, node coordinates taken from the parent of the same column, spine-operator arity table (0/2/2/guarded 1/raise), '
+         'stage counter once per non-empty row, add_node/Node bookkeeping.',
+    note='Not decided: equality of the whole tree with an independent spine-path model. Trusted: csv.reader dialect semantics, CPython list semantics.',
+)
